@@ -48,7 +48,7 @@ META = {
     "technique": "bounded-exhaustive enumeration of template names over a path-fragment alphabet against a scratch tree "
     "with sentinel files, audit-hook observation of every open(), and an in-root reference resolution; exhaustive "
     "enumeration of loader compositions x leaf contents x query names against a recursive reference resolver",
-    "text": "All names of <= 4 segments (quick 3) over 13 fragments ('..', '.', '', backslash forms, drive, '~', "
+    "text": "All names of <= 5 segments (quick 3) over 13 fragments ('..', '.', '', backslash forms, drive, '~', "
     "percent-encoding, NUL, non-ASCII), with/without leading '/', plus explicit sentinel spellings, on 12 "
     "FileSystemLoader and 3 PackageLoader setups: no file outside the search roots is ever opened, the result is the "
     "file the in-root resolution finds or TemplateNotFound, parent references only ever give TemplateNotFound. All "
@@ -535,7 +535,7 @@ def run(ctx: core.Ctx):
         raise core.HarnessError("C28 is written for a POSIX platform")
     base = core.scratch_dir("c28")
     build_tree(base)
-    maxseg = 3 if ctx.quick else 4
+    maxseg = 3 if ctx.quick else 5
     ctx.rule = ("every name of <= k alphabet segments x leading slash x every loader setup, plus explicit sentinel "
                 "spellings; non-trivial = the name resolves, or leaves the roots, or raises, or contains a special "
                 "fragment; distinct = (loader setup, reference class [file / leaves / absent], observed outcome); "
